@@ -29,6 +29,9 @@ pub enum Corrupt {
     SwapNotarySignature { other: u8 },
     /// adversarial: duplicate the first intent signature
     DuplicateSigner,
+    /// adversarial: append an intent signature by a small-order Ed25519 key (R = identity, s = 0),
+    /// which a non-strict verifier accepts over any message
+    ForgeEd25519,
 }
 
 #[derive(Clone, Debug, Serialize, Deserialize)]
@@ -220,7 +223,11 @@ fn tamper(raw: &[u8], field: u8, arg: u32) -> Option<(Vec<u8>, u8)> {
                     part = 0
                 }
                 6 => {
-                    i.blobs.blobs.push(BlobV1(vec![arg as u8]));
+                    // a new blob, or (odd arg, blob present) the first blob once more
+                    match (arg % 2 == 1, i.blobs.blobs.first().cloned()) {
+                        (true, Some(first)) => i.blobs.blobs.push(first),
+                        _ => i.blobs.blobs.push(BlobV1(vec![arg as u8])),
+                    }
                     part = 0
                 }
                 7 => {
@@ -291,7 +298,10 @@ fn tamper(raw: &[u8], field: u8, arg: u32) -> Option<(Vec<u8>, u8)> {
                     part = 0
                 }
                 4 => {
-                    ti.root_intent_core.blobs.blobs.push(BlobV1(vec![arg as u8]));
+                    match (arg % 2 == 1, ti.root_intent_core.blobs.blobs.first().cloned()) {
+                        (true, Some(first)) => ti.root_intent_core.blobs.blobs.push(first),
+                        _ => ti.root_intent_core.blobs.blobs.push(BlobV1(vec![arg as u8])),
+                    }
                     part = 0
                 }
                 5 => {
@@ -345,6 +355,20 @@ fn tamper(raw: &[u8], field: u8, arg: u32) -> Option<(Vec<u8>, u8)> {
     }
     let bytes = manifest_encode(&tx).ok()?;
     Some((bytes, part))
+}
+
+fn forge_ed25519(raw: &[u8]) -> Option<Vec<u8>> {
+    let mut a = UserTransaction::from_raw(&RawNotarizedTransaction::from_vec(raw.to_vec())).ok()?;
+    let mut pk = [0u8; 32];
+    pk[0] = 1;
+    let mut sig = [0u8; 64];
+    sig[0] = 1;
+    let forged = SignatureWithPublicKeyV1::Ed25519 { public_key: Ed25519PublicKey(pk), signature: Ed25519Signature(sig) };
+    match &mut a {
+        UserTransaction::V1(x) => x.signed_intent.intent_signatures.signatures.push(IntentSignatureV1(forged)),
+        UserTransaction::V2(x) => x.signed_transaction_intent.transaction_intent_signatures.signatures.push(IntentSignatureV1(forged)),
+    }
+    manifest_encode(&a).ok()
 }
 
 fn swap_sigs(raw: &[u8], other: &[u8], notary: bool, duplicate: bool) -> Option<Vec<u8>> {
@@ -472,6 +496,7 @@ impl World for Transport {
                         8..=14 => Corrupt::Tamper { field: rng.below(12) as u8, arg: rng.below(1000) as u32 },
                         15..=16 => Corrupt::SwapIntentSignatures { other: rng.below(originals.len() as u64) as u8 },
                         17 => Corrupt::SwapNotarySignature { other: rng.below(originals.len() as u64) as u8 },
+                        18 => Corrupt::ForgeEd25519,
                         _ => Corrupt::DuplicateSigner,
                     }
                 };
@@ -567,6 +592,13 @@ impl World for Transport {
                                 None => continue,
                             }
                         }
+                        Corrupt::ForgeEd25519 => {
+                            stats.bump("fault.forged_small_order_signature");
+                            match forge_ed25519(&orig.raw) {
+                                Some(b) => b,
+                                None => continue,
+                            }
+                        }
                     };
                     let corrupted = bytes != orig.raw;
                     let raw = RawNotarizedTransaction::from_vec(bytes.clone());
@@ -589,6 +621,7 @@ impl World for Transport {
                         Corrupt::SwapIntentSignatures { .. } => 30,
                         Corrupt::SwapNotarySignature { .. } => 31,
                         Corrupt::DuplicateSigner => 32,
+                        Corrupt::ForgeEd25519 => 33,
                     };
                     let Ok(p) = prepared else {
                         if !corrupted {
